@@ -8,8 +8,10 @@ package main
 //                   types of 0..200 fields and methods, several instances and aliases  [search]
 
 import (
+	"bytes"
 	"fmt"
 	"strings"
+	"testing/fstest"
 
 	goat "github.com/philhassey/goatlang"
 )
@@ -290,7 +292,7 @@ func (c *Ctx) c12Scripts() error {
 }
 
 func runC12(c *Ctx) error {
-	c.Rep.Rule = "intmap: histories of Set/Assign/Get/Delete/Len/Copy/use over key pools that are sequential, colliding in the low bits, scattered or negative, on up to 4 tables related by Copy, the whole slot array (distance, key) compared with the model at dumps; half of the histories without Delete (the VM never deletes); struct-script: struct types with 0..200 fields (int and byte) and 0..120 methods, two instances and an alias, random field writes, compound updates, reads and method calls; distinct = distinct history/script; non-trivial = history of more than 20 ops / more than 5 fields"
+	c.Rep.Rule = "intmap: histories of Set/Assign/Get/Delete/Len/Copy/use over key pools that are sequential, colliding in the low bits, scattered or negative, on up to 4 tables related by Copy, the whole slot array (distance, key) compared with the model at dumps; half of the histories without Delete (the VM never deletes); struct-script: struct types with 0..200 fields (int and byte) and 0..120 methods, two instances and an alias, random field writes, compound updates, reads and method calls; late-methods: instances, an alias and an instance of a defined type created while the type has m1 methods, further methods up to m2 (crossing the method table's growth thresholds) defined by later evaluations, then called on old and new instances; distinct = distinct history/script; non-trivial = history of more than 20 ops / more than 5 fields"
 	n, maxOps := 600, 120
 	if c.Thorough() {
 		n, maxOps = 30000, 400
@@ -328,5 +330,84 @@ func runC12(c *Ctx) error {
 			}
 		}
 	}
-	return c.c12Scripts()
+	if err := c.c12Scripts(); err != nil {
+		return err
+	}
+	c.c12LateMethods()
+	return nil
+}
+
+// c12LateMethods: the type's method table grows (across every growth threshold) AFTER instances exist:
+// methods defined by later evaluations must be found on the old instances, on their aliases, on new
+// instances and on a type defined from the type
+func (c *Ctx) c12LateMethods() {
+	r := c.RNG
+	pairs := [][2]int{{0, 13}, {1, 14}, {3, 12}, {12, 13}, {5, 30}, {12, 60}, {13, 25}, {20, 120}, {24, 49}, {1, 200}}
+	n := 4
+	if c.Thorough() {
+		n = 40
+	}
+	for it := 0; it < n; it++ {
+		pr := pairs[(it+r.Intn(len(pairs)))%len(pairs)]
+		m1, m2 := pr[0], pr[1]
+		var out bytes.Buffer
+		vm := goat.New(goat.WithStdout(&out))
+		var script []string
+		eval := func(src string) error {
+			script = append(script, src)
+			var err error
+			if e := try(func() { _, err = vm.Eval(fstest.MapFS{}, "main", src) }); e != nil {
+				err = e
+			}
+			return err
+		}
+		meth := func(i int) string { return fmt.Sprintf("func (s *S) M%d(k int) int { return s.F + k + %d }\n", i, i) }
+		var sb strings.Builder
+		sb.WriteString("type S struct {\n\tF int\n}\n")
+		for i := 0; i < m1; i++ {
+			sb.WriteString(meth(i))
+		}
+		sb.WriteString("type D S\n")
+		err := eval(sb.String())
+		if err == nil {
+			err = eval("a := &S{F: 5}\nal := a\nd := &D{F: 9}")
+		}
+		// the remaining methods arrive in 1..3 later evaluations
+		for lo := m1; lo < m2 && err == nil; {
+			hi := lo + 1 + r.Intn(m2-lo)
+			sb.Reset()
+			for i := lo; i < hi; i++ {
+				sb.WriteString(meth(i))
+			}
+			err = eval(sb.String())
+			lo = hi
+		}
+		var want []string
+		if err == nil {
+			err = eval("b := &S{F: 7}")
+		}
+		for k := 0; k < 12 && err == nil; k++ {
+			i := r.Intn(m2)
+			if k < 3 {
+				i = m2 - 1 - k%m2 // the latest methods first
+				if i < 0 {
+					i = 0
+				}
+			}
+			v := Pick(r, []string{"a", "al", "b", "d"})
+			f := map[string]int{"a": 5, "al": 5, "b": 7, "d": 9}[v]
+			err = eval(fmt.Sprintf("println(%s.M%d(%d))", v, i, k))
+			want = append(want, fmt.Sprint(f+k+i))
+		}
+		c.Rep.Oracle["late-methods"]++
+		c.Rep.Count(fmt.Sprintf("late-methods-%d-to-%d", m1, m2))
+		got := strings.TrimSpace(out.String())
+		if err != nil || got != strings.Join(want, "\n") {
+			e := ""
+			if err != nil {
+				e = " ERR " + err.Error()
+			}
+			c.Rep.Violate(Violation{Kind: "oracle", Cut: "late-methods", Input: script, Impl: got + e, Oracle: strings.Join(want, "\n")})
+		}
+	}
 }
